@@ -181,6 +181,16 @@ Fixpoint read_all (fuel : nat) (width : option nat) (inp : list Z) : res (list r
 
 Definition csv_decode (inp : list Z) : res (list record) := read_all (S (length inp)) None inp.
 
+(* csvDecodeFnBody's own type switch accepts rel.String and rel.Bytes only: the
+   empty string / empty byte array is the empty set and is rejected (flag on =
+   today's code; off = the repaired behaviour: no records).  csv.encode([]) is
+   exactly that empty byte array. *)
+Definition csv_decode_arg (q_csv_empty_input_rejected : bool) (inp : list Z) : res (list record) :=
+  match inp with
+  | [] => if q_csv_empty_input_rejected then Err else Ok []
+  | _ => csv_decode inp
+  end.
+
 (* ---------- the guard of the round trip ---------- *)
 Fixpoint has_crlf (f : field) : bool :=
   match f with
